@@ -932,6 +932,47 @@ public:
       CRAB_ERROR("abs_transformer::unify unsupported type");
     }
   }
+
+  // Return a variable of the same type as v that cannot occur in any
+  // CFG. Given the same v and suffix it returns always the same variable.
+  static variable_t mk_shadow(const variable_t &v, const std::string &suffix) {
+    using varname_t = typename AbsDom::varname_t;
+    auto &vfac = const_cast<varname_t *>(&(v.name()))->get_var_factory();
+    return variable_t(vfac.get(v.name(), suffix), v.get_type());
+  }
+
+  // Parallel version of unify: lhs[i] := rhs[i] for all i where all
+  // rhs are read before any lhs is written. This matters if some
+  // lhs[i] is also rhs[j] (i != j). For instance, the callee foo(x,y)
+  // and the callsite foo(y,x), or any recursive call that permutes
+  // its parameters. lhs should not contain duplicates.
+  static void unify(AbsDom &inv, const std::vector<variable_t> &lhs,
+                    const std::vector<variable_t> &rhs) {
+    assert(lhs.size() == rhs.size());
+    std::vector<variable_t> srcs(rhs.begin(), rhs.end());
+    std::vector<variable_t> tmps;
+    for (unsigned i = 0, e = lhs.size(); i < e; ++i) {
+      if (lhs[i] == srcs[i]) {
+        continue;
+      }
+      // If lhs[i] is still to be read then we save its value.
+      bool saved = false;
+      for (unsigned j = i + 1; j < e; ++j) {
+        if (srcs[j] == lhs[i]) {
+          if (!saved) {
+            tmps.push_back(mk_shadow(lhs[i], ".unify.old"));
+            unify(inv, tmps.back(), lhs[i]);
+            saved = true;
+          }
+          srcs[j] = tmps.back();
+        }
+      }
+      unify(inv, lhs[i], srcs[i]);
+    }
+    if (!tmps.empty()) {
+      inv.forget(tmps);
+    }
+  }
 };
 
 /////////////////////////////////
